@@ -79,8 +79,14 @@ func NewCompiler(
 		symbolTable = NewSymbolTable()
 	}
 
-	// add builtin functions to the symbol table
+	// add builtin functions to the symbol table; a symbol the caller has
+	// already defined under the same name (a script variable) keeps shadowing
+	// the builtin instead of being silently replaced by it
 	for idx, fn := range builtinFuncs {
+		if sym, _, ok := symbolTable.Resolve(fn.Name, false); ok &&
+			sym.Scope != ScopeBuiltin {
+			continue
+		}
 		symbolTable.DefineBuiltin(idx, fn.Name)
 	}
 
